@@ -29,8 +29,9 @@ SPEC_FUNCS = {
 class VArr(V):
     """A ghost array / set value in spec expressions."""
 
-    def __init__(self, t):
+    def __init__(self, t, elem=None):
         self.t = t
+        self.elem = elem
 
     def __repr__(self):
         return f"VArr({self.t})"
@@ -50,7 +51,7 @@ def wrap_term(t):
         return VReal(t)
     if s == ty.StrS:
         return VStr(t)
-    if z3.is_array_sort(s):
+    if s.kind() == z3.Z3_ARRAY_SORT:
         return VArr(t)
     if s.kind() == z3.Z3_SEQ_SORT:
         return VSeq(t, ty.Obj)
@@ -138,12 +139,18 @@ class SpecMixin:
             name = node.attr
             if name not in self.schema.ghosts:
                 raise EngineError(f"unknown ghost {name}")
-            return [self.val(st, wrap_term(st.ghost_get(name)))]
+            w = wrap_term(st.ghost_get(name))
+            if isinstance(w, VArr):
+                w.elem = self.schema.ghosts[name].elem
+            return [self.val(st, w)]
         return super().ev_Attribute(node, st)
 
     def get_item(self, c, k, st):
         if isinstance(c, VArr):
-            return [self.val(st, wrap_term(z3.Select(c.t, term_of(k))))]
+            t = z3.Select(c.t, term_of(k))
+            if c.elem == "obj":
+                return [self.val(st, VObj(t))]
+            return [self.val(st, wrap_term(t))]
         return super().get_item(c, k, st)
 
     def contains(self, coll, x, st):
@@ -539,6 +546,8 @@ class VerifyMixin:
         for nm, expr in c.lets:
             spec_env[nm] = self.spec_value(expr, s, spec_env)
         for label, expr in c.requires_:
+            s.assume(self.spec_eval(expr, s, spec_env, mode="hyp"))
+        for label, expr, tag in getattr(c, "relies_", []):
             s.assume(self.spec_eval(expr, s, spec_env, mode="hyp"))
         for lk in c.entry_held:
             s.held.append(self.spec_value(lk, s, spec_env).t)
